@@ -117,6 +117,21 @@ def cases(tier, seed):
                                 "nseeds": 1 if tier == "quick" else 2,
                                 "fixed": {"m": m_, "n": n_, "R": R_, "P": P_, "r": min(m_, n_), "kind": "simple", "n_iter": it_, "n_passes": 2 + it_,      # the property covers two or more passes
                                           "colstruct": "struct:" + st_}})
+    # narrow sketches (R + P well below min(m, n)) on slowly decaying spectra, ODD pass counts, many random draws: the returned values must
+    # interlace for every draw (a value computed from the wrong side of the last pass exceeds sigma_i only for a few draws in a hundred)
+    for j, (m_, n_, R_, P_) in enumerate(((10, 11, 7, 0), (12, 12, 6, 2), (16, 14, 8, 2), (9, 13, 5, 1), (14, 10, 6, 0))):
+        for passes_ in (3, 5) if tier == "quick" else (2, 3, 4, 5):
+            out.append({"kind": "run", "cls": "narrow_sketch_many_draws", "routine": "pass_eff_qsvd", "idx": 7 * 10 ** 6 + 10 * j + passes_, "seed": seed, "maxd": maxd,
+                        "nseeds": 20 if tier == "quick" else 60,
+                        "fixed": {"m": m_, "n": n_, "R": R_, "P": P_, "r": min(m_, n_), "kind": "simple", "n_iter": 1, "n_passes": passes_}})
+    # strongly tall (m > 2n) or wide input with a sketch wider than twice the small dimension: the small triangular factors are then
+    # strongly rectangular; every pass count / iteration count
+    for routine in ("rand_qsvd", "pass_eff_qsvd"):
+        for j, (m_, n_, R_, P_) in enumerate(((9, 3, 2, 8), (12, 4, 3, 10), (10, 3, 3, 6), (3, 9, 2, 8), (4, 13, 4, 9))):
+            for it_ in (0, 1, 2) if tier == "quick" else (0, 1, 2, 3):
+                out.append({"kind": "run", "cls": "wide_sketch_on_thin_matrix", "routine": routine, "idx": 6 * 10 ** 6 + 10 * j + it_, "seed": seed, "maxd": maxd,
+                            "nseeds": 1 if tier == "quick" else 3,
+                            "fixed": {"m": m_, "n": n_, "R": R_, "P": P_, "r": min(m_, n_), "kind": "simple", "n_iter": it_, "n_passes": 2 + it_}})
     for routine in ("rand_qsvd", "pass_eff_qsvd"):
         for j, sc_ in enumerate((2.0 ** -60, 2.0 ** -200, 2.0 ** 100, 2.0 ** -30)):
             for (m_, n_, R_, P_, r_, kind_) in ((9, 7, 3, 0, 3, "simple"), (6, 8, 2, 0, 2, "simple"), (7, 7, 3, 2, 7, "geometric")):
@@ -303,10 +318,11 @@ def run_case(spec, ctx, R):
         tags = list(tags_base)
         kmax = max([q["kappa_leading"] for q in inner if np.isfinite(q["kappa_leading"])] + [1.0])
         # Attribution to the QR findings needs BOTH the observation (a sketch handed to qr_qua was rank-deficient) AND generator ground truth that
-        # this is unavoidable for the input: rank(A) < R + oversample, or a sketch wider than the matrix.  For rank(A) >= R + P <= min(m, n) a
+        # this is unavoidable for the input: rank(A) < min(R + oversample, min(m, n)).  For rank(A) >= min(R + P, min(m, n)) a
         # Gaussian sketch of A has full column rank with probability one - a rank-deficient inner factor is then the routine's own doing
         # (e.g. an iteration that forgets part of range(A)) and gets no tag.
-        unavoidable = (r < Rk + P) or (Rk + P > N)
+        unavoidable = r < min(Rk + P, N)      # A itself is rank-deficient relative to the sketch; a FULL-rank A with a sketch wider than the matrix is
+        #                                        handled correctly by the routines (no tag; verified on seeds 0..3 of both tiers)
         if unavoidable and any(q["deficient"] or not np.isfinite(q["kappa_leading"]) for q in inner):
             tags.append("inner_qr_rank_deficient")
         nzs = [v for v in svals if v > 0]
